@@ -429,6 +429,79 @@ theorem dev_partition : ∀ (ks : List Nat) {s : Bus.State}, WF s → IoOk s.io 
       exact dev_partition (k2 :: rest) wf1 ok1 hd1 (by simp) (fun x hx => hks x (List.mem_cons_of_mem _ hx)) (by omega)
 
 
+
+/-! ### what the passage of time can touch -/
+
+/-- everything of the bus state except OAM, the I/O block and the DMA bookkeeping -/
+def rest (s : Bus.State) : Cart.State × Nat × Array Nat × Array Nat × Array Nat × Array Nat × Nat :=
+  (s.cart, s.romLen, s.vram, s.cram, s.wram, s.hram, s.dmaReg)
+
+open GbVerif.BusProofs in
+theorem dmaCopyByte_rest {s s' : Bus.State} (wf : WF s) {source off : Nat} (ho : off < 0xa0)
+    (h : dmaCopyByte s source off = .ok s') : rest s' = rest s ∧ s'.rom = s.rom := by
+  unfold dmaCopyByte at h
+  cases hr : read s ((source + off) % 65536) with
+  | error e => rw [hr] at h; cases h
+  | ok v =>
+    rw [hr] at h
+    simp only [bind, Except.bind] at h
+    rw [write_oam_wf wf v (by omega) (by omega)] at h
+    injection h with h; subst h
+    constructor
+    · unfold rest; rfl
+    · rfl
+
+open GbVerif.BusProofs in
+theorem dmaLoop_rest (source : Nat) : ∀ (n : Nat) {s : Bus.State} (_ : WF s) (off : Nat) (s' : Bus.State) (off' : Nat), off + n ≤ 0xa0 →
+    Sys.dmaLoop s source off n = .ok (s', off') → rest s' = rest s ∧ s'.rom = s.rom
+  | 0, s, _, off, s', off', _, h => by injection h with h; injection h with h1 _; subst h1; exact ⟨rfl, rfl⟩
+  | n+1, s, wf, off, s', off', hb, h => by
+    rw [dmaLoop_succ] at h
+    obtain ⟨s1, h1, wf1⟩ := dmaCopyByte_total wf source off (by omega)
+    rw [h1] at h
+    simp only [Except.bind] at h
+    cases h2 : Sys.ioRun s1.io 4 with
+    | error e => rw [h2] at h; cases h
+    | ok io2 =>
+      rw [h2] at h
+      simp only [] at h
+      have wf2 : WF { s1 with io := io2 } := ⟨wf1.1, wf1.2, wf1.3, wf1.4, wf1.5, wf1.6⟩
+      obtain ⟨e1, e2⟩ := dmaLoop_rest source n wf2 (off + 1) s' off' (by omega) h
+      obtain ⟨e3, e4⟩ := dmaCopyByte_rest wf (by omega) h1
+      exact ⟨e1.trans e3, e2.trans e4⟩
+
+open GbVerif.BusProofs in
+/-- **the passage of time touches OAM (only while a transfer runs), the I/O block and the DMA bookkeeping — nothing else**:
+cartridge registers, ROM, video RAM, cartridge RAM, work RAM, high RAM are exactly as before -/
+theorem dev_rest {s s' : Bus.State} (wf : WF s) (hd : DmaOk s) {k : Nat} (h : Sys.dev s k = .ok s') :
+    rest s' = rest s ∧ s'.rom = s.rom ∧ (s.dma = none → s'.oam = s.oam) := by
+  unfold Sys.dev at h
+  cases hdma : s.dma with
+  | none =>
+    rw [hdma] at h
+    simp only [bind, Except.bind] at h
+    cases h1 : Sys.ioRun s.io k with
+    | error e => rw [h1] at h; cases h
+    | ok io1 => rw [h1] at h; injection h with h; subst h; exact ⟨rfl, rfl, fun _ => rfl⟩
+  | some p =>
+    obtain ⟨source, off⟩ := p
+    have hoff := hd source off hdma
+    rw [hdma] at h
+    simp only [] at h
+    cases h1 : Sys.dmaLoop s source off (min (0xa0 - off) (k / 4)) with
+    | error e => rw [h1] at h; simp only [bind, Except.bind] at h; cases h
+    | ok r =>
+      obtain ⟨s1, off'⟩ := r
+      rw [h1] at h
+      simp only [bind, Except.bind] at h
+      cases h2 : Sys.ioRun s1.io (k - 4 * min (0xa0 - off) (k / 4)) with
+      | error e => rw [h2] at h; cases h
+      | ok io1 =>
+        rw [h2] at h
+        injection h with h; subst h
+        obtain ⟨e1, e2⟩ := dmaLoop_rest source _ wf off s1 off' (by omega) h1
+        exact ⟨e1, e2, fun hn => by cases hn⟩
+
 /-! ### bus writes keep the invariants of the batch theorem -/
 
 theorem setControl_mask (t : Bus.TimerRegs) (v : Nat) : (t.setControl v).1.clockMask < 65536 := by
